@@ -8,13 +8,16 @@ import (
 	"go.flow.arcalot.io/engine/workflow"
 )
 
-// validateRun checks the returned data against the workflow's declared output schema (C08).
-func validateRun(wf workflow.ExecutableWorkflow, ret *Returned, ans *Answer) {
+// validateRun checks the returned data against the workflow's declared output schema (C08),
+// independently of the engine's own consistency check.
+func validateRun(wf workflow.ExecutableWorkflow, ret *Returned, rawData any, ans *Answer) {
 	s, ok := wf.OutputSchema()[ret.OutputID]
 	if !ok {
 		ans.Invalid = append(ans.Invalid, fmt.Sprintf("returned output id %q not in OutputSchema()", ret.OutputID))
 		return
 	}
 	ans.Validated++
-	_ = s
+	if _, err := s.Unserialize(rawData); err != nil {
+		ans.Invalid = append(ans.Invalid, fmt.Sprintf("returned data of output %q does not unserialize with its declared schema: %v", ret.OutputID, err))
+	}
 }
